@@ -144,4 +144,24 @@ def passes (c : Cfg) (n : Nat) : Nat → St → St
   | 0, σ => σ
   | f+1, σ => if isDone n σ || σ.cancelled then σ else passes c n f (pass c σ (List.range n))
 
+/-! ## A fair schedule (used by C03's termination theorem, by the nested model and by the oracle) -/
+
+/-- the two goroutine steps of stage `s`: `Run` returns with `okf s`, then the status write -/
+def finishActs (okf : Nat → Bool) (s : Nat) : List Act := [.ret s (okf s), .post s]
+
+/-- every task in flight among the stages `0 … n-1` returns and its goroutine finishes -/
+def drainActs (okf : Nat → Bool) (n : Nat) : List Act := (List.range n).flatMap (finishActs okf)
+
+/-- one step of a fair schedule: drain, then one complete pass of the loop -/
+def round (c : Cfg) (okf : Nat → Bool) (n : Nat) (σ : St) : St :=
+  pass c (run c σ (drainActs okf n)) (List.range n)
+
+/-- the `for !isDone` loop under the fair schedule (fuel `k`) -/
+def rounds (c : Cfg) (okf : Nat → Bool) (n : Nat) : Nat → St → St
+  | 0, σ => σ
+  | k+1, σ => if isDone n σ || σ.cancelled then σ else rounds c okf n k (round c okf n σ)
+
+/-- the state a complete fair run ends in (`3n + 1` rounds suffice: `C03_fair_terminates`) -/
+def fairFinal (c : Cfg) (okf : Nat → Bool) (n : Nat) : St := rounds c okf n (3 * n + 1) init
+
 end Sched
